@@ -209,6 +209,8 @@ def _build_witness(case):
         # the candle's own body enters the inclusive average: solve b <= (S9 + b)/(10 m)  ->  take b small enough
         b = max(0, int(lo_b / m) - 1) if br != "body" else int(m * hi_b * 10 / 9) + 2
         long_sh = max(m * b, 4) + 2 + ex[3] if br not in ("lower" if pat == "hammer" else "upper",) else max(0, int(b / m) - 1) if b else 0
+        if br == "near" and ex[2] % 2 == 1:
+            long_sh += 12 * max(hls[-5:])  # a huge wick: the candle's own range must not widen its 'near' allowance
         if br in ("lower" if pat == "hammer" else "upper",) and b == 0:
             b, long_sh = 4, 1
         lo_hl, hi_hl = avg_both(hls, b + long_sh)
